@@ -151,50 +151,34 @@ func (s *Set) getSiblingTemplate(templatePath, siblingPath string, cacheAfterPar
 // same as GetTemplate, but doesn't cache a template when found through the loader.
 func (s *Set) getTemplate(templatePath string, cacheAfterParsing bool, loading ...string) (t *Template, err error) {
 	if !s.developmentMode {
-		t, exact, found := s.getTemplateFromCache(templatePath)
-		if found {
-			if !exact && cacheAfterParsing {
-				// found under another spelling (path + extension): remember it under the requested
-				// path too, so that entries cached later cannot change what this name returns
-				s.cache.Put(templatePath, t)
-			}
+		// a template is stored under the path it was requested with
+		if t := s.cache.Get(templatePath); t != nil {
 			return t, nil
 		}
 	}
 
 	verifYield("getTemplate:miss")
-	t, err = s.getTemplateFromLoader(templatePath, cacheAfterParsing, loading...)
-	if err == nil && cacheAfterParsing && !s.developmentMode {
-		verifYield("getTemplate:put")
-		s.cache.Put(templatePath, t)
-	}
-	return t, err
-}
-
-func (s *Set) getTemplateFromCache(templatePath string) (t *Template, exact, ok bool) {
-	// a template is stored under the path it was requested with
-	if t := s.cache.Get(templatePath); t != nil {
-		return t, true, true
-	}
-	// check path with all possible extensions in cache
-	for _, extension := range s.extensions {
-		if extension == "" {
-			continue // the requested path itself, probed above
-		}
-		canonicalPath := path.Clean(templatePath + extension) // (an extension may begin with a slash)
-		if t := s.cache.Get(canonicalPath); t != nil {
-			return t, false, true
-		}
-	}
-	return nil, false, false
-}
-
-func (s *Set) getTemplateFromLoader(templatePath string, cacheAfterParsing bool, loading ...string) (t *Template, err error) {
-	// check path with all possible extensions in loader
+	// the candidates (path + extension) in the configured order: the first one that is cached or
+	// exists in the loader wins - a cached later candidate must not win over an earlier file
 	for _, extension := range s.extensions {
 		canonicalPath := path.Clean(templatePath + extension) // (an extension may begin with a slash)
+		if !s.developmentMode && canonicalPath != templatePath {
+			if t := s.cache.Get(canonicalPath); t != nil {
+				if cacheAfterParsing {
+					// found under another spelling (path + extension): remember it under the requested
+					// path too, so that entries cached later cannot change what this name returns
+					s.cache.Put(templatePath, t)
+				}
+				return t, nil
+			}
+		}
 		if found := s.loader.Exists(canonicalPath); found {
-			return s.loadFromFile(canonicalPath, cacheAfterParsing, loading...)
+			t, err = s.loadFromFile(canonicalPath, cacheAfterParsing, loading...)
+			if err == nil && cacheAfterParsing && !s.developmentMode {
+				verifYield("getTemplate:put")
+				s.cache.Put(templatePath, t)
+			}
+			return t, err
 		}
 	}
 	return nil, fmt.Errorf("template %s could not be found", templatePath)
